@@ -538,6 +538,7 @@ type wexec struct {
 	pendingCur  map[string]*pbresource.Resource
 	hist        []map[string]string
 	lastRestore int
+	lockLevel   bool
 }
 
 // snapshotState remembers key -> version after the latest commit (hist[n] = state after n commits).
@@ -642,6 +643,9 @@ func (e *wexec) doStep(s wstep) {
 		e.commits = append(e.commits, commit{pseudo: true, seq: len(e.commits) + 1})
 		e.snapshotState()
 		e.lastRestore = len(e.commits)
+		if e.lockLevel {
+			return // the watcher threads consume themselves; checked at quiescence
+		}
 		e.pump()
 		for _, w := range e.ws {
 			if w.opened && !w.closed {
@@ -691,6 +695,13 @@ func (e *wexec) seqOf(k, version string, deleted bool) int {
 
 func (e *wexec) pump() {
 	for _, w := range e.ws {
+		e.pumpOne(w)
+	}
+}
+
+// pumpOne lets one watcher consume whatever is deliverable to it now.
+func (e *wexec) pumpOne(w *watcher) {
+	{
 		for w.opened && !w.closed {
 			evt, err, ok := w.w.VerifNextNoBlock()
 			if !ok {
@@ -893,7 +904,12 @@ func runW(sc *wscenario, prefix []int) (*wexec, []int, []int) {
 		choices = append(choices, c)
 		e.step(en[c])
 	}
-	// quiescence: every open watch has seen its listing and every later commit of its tenancy
+	e.quiesce()
+	return e, alts, choices
+}
+
+// quiesce: every open watch has seen its listing and every later commit of its tenancy
+func (e *wexec) quiesce() {
 	for _, w := range e.ws {
 		if !w.opened || w.closed {
 			continue
@@ -926,7 +942,6 @@ func runW(sc *wscenario, prefix []int) (*wexec, []int, []int) {
 		}
 		w.w.Close()
 	}
-	return e, alts, choices
 }
 
 func wscenarios(quick bool) []*wscenario {
@@ -1031,6 +1046,7 @@ func Run(c *ev.Ctx) {
 	defer vtime.ParkTimers(false)
 	partL(c)
 	partD(c)
+	partLW(c)
 	partW(c)
 	partS(c)
 	var l, w int64
